@@ -37,7 +37,8 @@ def zsegs : List SegSpec → Vec4 → Nat → List ZSeg
       x0 := s.ctrl.x.headD start.x, y0 := s.ctrl.y.headD start.y, z0 := s.ctrl.z.headD start.z,
       xe := e.x, ye := e.y, ze := e.z } :: zsegs rest e (T + s.durMs)
 
-/-- what `sb_poly_touches(poly, value, &t)` answers: `some t` or `none` -/
+/-- what `sb_poly_touches(poly, value, &t)` answers, refined to the first touching point by
+`sb_i_get_first_touching_point` in the takeoff calculation: `some t` or `none` -/
 abbrev Touch := Poly → Rat → Option Rat
 
 /-! ### takeoff -/
@@ -84,15 +85,17 @@ def verticalSuffix (thr : Rat) (segs : List ZSeg) : List ZSeg :=
   (segs.reverse.takeWhile (isVertical thr)).reverse
 
 /-- the walk through the final run: consume whole segments while the descent left to do allows, land inside
-the segment where it runs out.  Returns the landing time; `dflt` when the walk ends without landing. -/
+the segment where it runs out.  Returns the landing time; `dflt` is what `landing_time_sec` holds so far (the start
+of the run, then the end of the last consumed segment that descended).  When the oracle finds no touching point in
+the segment where the descent runs out, the point is estimated linearly from the descent left. -/
 def walkRun (ρ : Touch) (dflt : Rat) : List ZSeg → Rat → Rat → Rat
   | [], _, _ => dflt
   | s :: rest, altitude, toDescend =>
     let delta := altitude - s.ze
     if delta < 0 then dflt
-    else if delta ≤ toDescend then walkRun ρ dflt rest s.ze (toDescend - delta)
+    else if delta ≤ toDescend then walkRun ρ (if delta > 0 then s.endSec else dflt) rest s.ze (toDescend - delta)
     else
-      let u := (ρ s.z (altitude - toDescend)).getD 0
+      let u := (ρ s.z (altitude - toDescend)).getD (toDescend / delta)
       s.startSec + u * s.durSec
 
 def totalSec (segs : List ZSeg) : Rat := match segs.getLast? with
@@ -130,5 +133,22 @@ def touchesLinear (p : Poly) (v : Rat) : Option Rat :=
     else if a > 0 ∧ v ≥ b ∧ v ≤ a + b then some ((v - b) / a)
     else if a < 0 ∧ v ≥ a + b ∧ v ≤ b then some ((v - b) / a)
     else none
+
+/-! ### bounding box -/
+
+/-- `sb_poly_get_extrema` for at most two coefficients (constant, linear): exact -/
+def extremaLinear (p : Poly) : Rat × Rat :=
+  match p with
+  | [] => (0, 0)
+  | [c] => (c, c)
+  | b :: a :: _ => if a > 0 then (b, b + a) else (b + a, b)
+
+/-- one `CHECK_DIM` step of `sb_trajectory_get_axis_aligned_bounding_box`; `none` is the initial [+inf, -inf] -/
+def mergeIv (acc : Option (Rat × Rat)) (iv : Rat × Rat) : Option (Rat × Rat) :=
+  match acc with
+  | none => some iv
+  | some (lo, hi) => some (min lo iv.1, max hi iv.2)
+
+def mergeAll (ivs : List (Rat × Rat)) : Option (Rat × Rat) := ivs.foldl mergeIv none
 
 end Sb.Stats
